@@ -21,9 +21,10 @@ int fmc_param(const char* name, int deflt) {
   return deflt;
 }
 
-typedef struct { int len; uint8_t p, d, e; uint8_t* c; } pfx_t;
+typedef struct { int len; uint8_t p, d, e, y; uint8_t* c; } pfx_t;
 
 static int W = 16, P = 1, D = 0, E = 0;
+static int Y = 255;  // bound on non-default choices at cost-free yield points (only matters with 3+ kernel threads)
 static long cap = 50000000;
 static double deadline_s = 1e9;
 static int child_timeout = 20;
@@ -111,12 +112,12 @@ static void stop_workers(void) {
 }
 
 // cost of taking alternative alt at choice point c
-static void altcost(const cp_t* c, int alt, int* dp, int* dd, int* de) {
-  *dp = *dd = *de = 0;
+static void altcost(const cp_t* c, int alt, int* dp, int* dd, int* de, int* dy) {
+  *dp = *dd = *de = *dy = 0;
   if (alt == c->deflt) return;
   switch (c->kind) {
     case K_SCHED: if (alt >= 8) *de = 1; else *dp = 1; break;
-    case K_YIELD: if (alt >= 8) *de = 1; break;
+    case K_YIELD: if (alt >= 8) *de = 1; else *dy = 1; break;
     case K_DELAY: *dd = 1; break;
     case K_COMMIT: break;
     case K_ENV: *de = 1; break;
@@ -215,7 +216,7 @@ static void run_pass(pass_t* ps) {
   long scap = 1 << 20;
   pfx_t* stack = malloc(sizeof(pfx_t) * scap);
   long sp = 0;
-  stack[sp++] = (pfx_t){0, 0, 0, 0, 0};
+  stack[sp++] = (pfx_t){0, 0, 0, 0, 0, 0};
   pfx_t inflight[64];
   int busy[64] = {0}, nbusy = 0;
   int stopping = 0;
@@ -275,14 +276,14 @@ static void run_pass(pass_t* ps) {
     }
     // expand
     if (!stopping) {
-      int cp_ = pf.p, cd = pf.d, ce = pf.e;
+      int cp_ = pf.p, cd = pf.d, ce = pf.e, cy = pf.y;
       for (uint32_t i = pf.len; i < tr->ncp; i++) {
         cp_t* c = &tr->cp[i];
         for (int alt = 0; alt < 16; alt++) {
           if (alt == c->chosen || !((c->mask >> alt) & 1)) continue;
-          int dp, dd, de;
-          altcost(c, alt, &dp, &dd, &de);
-          if (cp_ + dp > P || cd + dd > D || ce + de > E) continue;
+          int dp, dd, de, dy;
+          altcost(c, alt, &dp, &dd, &de, &dy);
+          if (cp_ + dp > P || cd + dd > D || ce + de > E || cy + dy > Y) continue;
           if (sp >= scap) {
             scap *= 2;
             stack = realloc(stack, sizeof(pfx_t) * scap);
@@ -290,11 +291,11 @@ static void run_pass(pass_t* ps) {
           uint8_t* nc = malloc(i + 1);
           for (uint32_t k = 0; k < i; k++) nc[k] = tr->cp[k].chosen;
           nc[i] = alt;
-          stack[sp++] = (pfx_t){(int)i + 1, (uint8_t)(cp_ + dp), (uint8_t)(cd + dd), (uint8_t)(ce + de), nc};
+          stack[sp++] = (pfx_t){(int)i + 1, (uint8_t)(cp_ + dp), (uint8_t)(cd + dd), (uint8_t)(ce + de), (uint8_t)(cy + dy), nc};
         }
-        int dp, dd, de;
-        altcost(c, c->chosen, &dp, &dd, &de);
-        cp_ += dp; cd += dd; ce += de;
+        int dp, dd, de, dy;
+        altcost(c, c->chosen, &dp, &dd, &de, &dy);
+        cp_ += dp; cd += dd; ce += de; cy += dy;
       }
     }
     free(pf.c);
@@ -414,6 +415,7 @@ int main(int argc, char** argv) {
       params[nparams++].val = atoi(eq + 1);
     } else if (!strncmp(a, "-S", 2)) D = atoi(a + 2), fmc_tso = D > 0;
     else if (!strncmp(a, "-E", 2)) E = atoi(a + 2);
+    else if (!strncmp(a, "-Y", 2)) Y = atoi(a + 2);
     else if (!strncmp(a, "-W", 2)) W = atoi(a + 2);
     else if (!strncmp(a, "-pmin", 5)) pmin = atoi(a + 5);
     else if (!strncmp(a, "-cap", 4)) cap = atol(a + 4);
@@ -510,7 +512,7 @@ int main(int argc, char** argv) {
     json_str(o, name);
     fprintf(o, ",\"args\":[");
     for (int i = 1; i < argc; i++) { if (i > 1) fputc(',', o); json_str(o, argv[i]); }
-    fprintf(o, "],\"P\":%d,\"D\":%d,\"E\":%d,\"completed_P\":%d,\"complete\":%s,\"closed\":%s,\"passes\":%d,", targetP, D, E, completedP, complete ? "true" : "false", closed ? "true" : "false", passes);
+    fprintf(o, "],\"Y\":%d,\"P\":%d,\"D\":%d,\"E\":%d,\"completed_P\":%d,\"complete\":%s,\"closed\":%s,\"passes\":%d,", Y, targetP, D, E, completedP, complete ? "true" : "false", closed ? "true" : "false", passes);
     fprintf(o, "\"execs\":%ld,\"states\":%ld,\"transitions\":%lu,\"nontrivial\":%ld,\"last_pass_nontrivial\":%ld,\"last_pass_execs\":%ld,\"last_pass_ok\":%ld,\"inconclusive\":%ld,\"outcomes\":%d,\"max_cp\":%ld,\"sites\":%d,\"threads\":%u,",
             tot_execs, tot_states, (unsigned long)tot_steps, tot_nontrivial, last->nontrivial, last->execs, last->ok, last->inconclusive, last->nobs, last->maxcp, count_sites(), slots[0].tr.maxthreads);
     fprintf(o, "\"user_cases\":%lu,\"engine_error\":%s,\"unconfirmed\":%d,\"wall_s\":%.2f,\"samples\":[", (unsigned long)last->user_cases, engine_error ? "true" : "false", unconfirmed, wall);
